@@ -1,6 +1,6 @@
 use super::*;
 use crate::base::{BaseSlot, BlockError, EntryContext, MetricEvent, StatSlot};
-use lazy_static::lazy_static;
+use crate::vsync::lazy_static;
 use std::sync::Arc;
 
 const STAT_SLOT_ORDER: u32 = 3000;
